@@ -25,10 +25,14 @@ RULE = (
     "non-trivial = a comparison against the table or against the index-addressed result was evaluated"
 )
 TOLERANCES = {"all": "exact / bitwise", "origins and dimensions of slices": "8 eps relative"}
-ASSUMPTIONS = ["axis table of vf/oracles/coords.py (the coordinate system's convention, pinned by the baseline tests)"]
+ASSUMPTIONS = [
+    "axis table of vf/oracles/coords.py (the coordinate system's convention, pinned by the baseline tests)",
+    "a reduced image sits where AxisReduction documents it: its lower corner is the lower corner of the input without the component of the removed Cartesian axis "
+    "(only then do cuts given by Cartesian coordinate select, on the reduced image, the data that matrix indices select)",
+]
 FLOORS = {
-    "quick": {"table_row": 48, "there_and_back": 12, "name_equals_index": 150, "layout_places_voxels": 80, "layout_inverse": 80},
-    "thorough": {"table_row": 48, "there_and_back": 12, "name_equals_index": 700, "layout_places_voxels": 400, "layout_inverse": 400},
+    "quick": {"slice_at_faces_and_off_centre": 300, "reduced_image_keeps_lower_corner": 60, "table_row": 48, "there_and_back": 12, "name_equals_index": 150, "layout_places_voxels": 80, "layout_inverse": 80},
+    "thorough": {"slice_at_faces_and_off_centre": 1500, "reduced_image_keeps_lower_corner": 300, "table_row": 48, "there_and_back": 12, "name_equals_index": 700, "layout_places_voxels": 400, "layout_inverse": 400},
 }
 
 
@@ -138,6 +142,18 @@ def run_shard(spec, R):
                             and np.allclose(np.asarray(by_i.origin, float), np.asarray(by_n.origin, float), rtol=8 * eps, atol=0))
                     R.check(same, "name_equals_index", {"fn": "reduce_axis", "dim": dim, "axis": name, "index": m, "mode": mode, "shape": list(shape)})
                     R.sig(["reduce_axis", dim, m, mode, payload])
+                    # where the reduced image sits (documented convention of the reduction: the lower corner of the image
+                    # without the component of the removed Cartesian axis, turned into an origin as Image does by default)
+                    if dim < 2:
+                        continue
+                    low = [float(cs.domain[a + "min"]) for a in CO.NAMES_C[:dim]]
+                    kept_low = [v for ci_, v in enumerate(low) if ci_ != c]
+                    nd = [float(x) for x in by_i.dimensions]
+                    exp_origin = [kept_low[0]] if dim == 2 else [kept_low[0], kept_low[1] + nd[0]]
+                    sc_o = max(1.0, float(np.max(np.abs(low))) + float(np.max(np.abs(img.dimensions))))
+                    for how_, red_ in (("index", by_i), ("name", by_n)):
+                        R.check(bool(np.all(np.abs(np.asarray(red_.origin, float) - np.asarray(exp_origin)) <= 16 * eps * sc_o)), "reduced_image_keeps_lower_corner",
+                                {"fn": "reduce_axis", "dim": dim, "axis": name, "by": how_, "origin": np.asarray(red_.origin, float).tolist(), "expected": exp_origin, "lower_corner": low})
             # slice mode of the reduction and Image.slice
             for t in range(shape[m]):
                 want = np.take(img.img, t, axis=m)
@@ -163,6 +179,22 @@ def run_shard(spec, R):
                             and np.allclose(np.asarray(by_i.origin, float), np.asarray(by_n.origin, float), rtol=8 * eps, atol=0))
                     R.check(same, "name_equals_index", {"fn": "Image.slice", "dim": dim, "axis": name, "index": m, "t": t, "coord": coord, "shape": list(shape)})
                     R.sig(["Image.slice", dim, m, payload, list(shape)])
+                # cuts that are not voxel centres: exactly on the faces of voxel t, and off-centre; the slice selected
+                # through the name is the one of the voxel the coordinate system assigns to that coordinate
+                for off in (0.0, 1.0, 0.25, 0.9):
+                    pos = np.array([0.5] * dim)
+                    pos[m] = t + off
+                    cface = float(np.asarray(cs.coordinate(pos), float)[c])
+                    full = np.zeros(dim)
+                    full[c] = cface
+                    idx = int(np.asarray(cs.voxel(full))[m])
+                    if not 0 <= idx < shape[m]:
+                        continue  # the cut lies on the outer face or outside: no voxel of the image
+                    ok_f, by_f = R.guarded("slice_by_name", lambda: img.slice(cface, name), key=lambda e, w: "C20:image_slice_by_name_fails")
+                    if ok_f:
+                        R.check(np.array_equal(by_f.img, np.take(img.img, idx, axis=m)), "name_equals_index",
+                                {"fn": "Image.slice", "dim": dim, "axis": name, "index": m, "cut": cface, "voxel_of_cut": idx, "offset_in_voxel": off, "shape": list(shape)})
+                        R.count("slice_at_faces_and_off_centre")
         if k < 2:
             R.sample({"image": desc, "checked": "slice/reduce by name vs index for every axis and cut"})
 
